@@ -2,12 +2,12 @@ SPECIFICATION MSpec
 CONSTANTS
   KeepMemo = TRUE
   Elems = {1, 2}
-  Filters <- FT2
+  Filters <- FT3
   NKeys = 1
   SecsVals = {0, 1}
   BadOn = {1}
-  MaxCalls = 3
-  MaxEnv = 1
+  MaxCalls = 2
+  MaxEnv = 2
   Conc = 2
   Emit = FALSE
   MaxOps = 0
